@@ -174,10 +174,15 @@ class Gen:
         return out
 
     MAXLEN = 40
+    HARD_MAX = 400
 
     def recv_slot(self, world, want_formatted=True, maxlen=None):
         r = self.rng
         cands = self.slots_of(world, (S, A), nonempty=True)
+        if maxlen is None:
+            # values made huge by a padding to width 1000/10000 (C09) are not operated on any further: an
+            # operation that is quadratic in the number of matches would take minutes on them
+            maxlen = self.HARD_MAX
         if maxlen is not None:
             small = [i for i in cands if len(world.obs[i].text) <= maxlen]
             cands = small or [min(cands, key=lambda i: len(world.obs[i].text))] if cands else cands
@@ -187,6 +192,7 @@ class Gen:
                 cands = fm
         if not cands or r.random() < 0.04:
             cands = self.slots_of(world, (S, A)) or list(range(len(world.obs)))
+            cands = [i for i in cands if len(world.obs[i].text) <= self.HARD_MAX] or cands
         return r.choice(cands)
 
     def index(self, obs, allow_out=True):
@@ -276,7 +282,7 @@ class Gen:
         n = r.choice([1, 1, 2, 2, 3, 4, 5, 6])
         if r.random() < 0.25:
             # a well-formed group with one byte of the whole printable range spliced in
-            base = r.choice(['1', '31', '38;5;10', '48;2;1;2;3', '58;5;9', '22', '4;34', '0'])
+            base = r.choice(['1', '31', '38;5;10', '48;2;1;2;3', '58;5;9', '22', '4;34', '0', '38;5;1', '48;2;10;20;30'])
             k = r.randrange(len(base) + 1)
             return base[:k] + r.choice(self.ALL_PRINTABLE) + base[k:]
         return ''.join(r.choice(self.SETTING_ALPHABET) for _ in range(n))
@@ -300,7 +306,7 @@ class Gen:
         if follow is not None and r.random() < 0.25:
             # derive-then-mutate: right after a derivation, change the source or the result in place
             slot = r.choice(follow)
-            if world.obs[slot % len(world.obs)].kind == S:
+            if world.obs[slot % len(world.obs)].kind == S and len(world.obs[slot % len(world.obs)].text) <= self.HARD_MAX:
                 k = r.choice(['apply', 'apply', 'remove', 'iadd', 'clear', 'pad', 'clip', 'fmatch', 'assign'])
                 op = getattr(self, 'g_' + k)(world)
                 if op['op'] == k:
@@ -653,6 +659,13 @@ class Gen:
             else:
                 op['st'] = self.selection(o)
                 op['star'] = r.random() < 0.5
+        if self.oracle.prop == 'C16' and r.random() < 0.08:
+            # format specifiers as separate positional arguments that only together form parameter groups; the
+            # relation (same state as apply/remove_formatting with that tuple) needs no model of the grouping
+            op['raw'] = r.choice([[38, 5, 214], [1, 31], ['38;5', 214], [48, 2, 1, 2, 3], [4, '58;5', 9], [38, 5, 214, 1],
+                                  ['bold', 38, 5, 9], [38, '5;9'], [31, 'bold', 4], [58, 2, 1, 2, 3, 'red']])
+            op['st'] = None
+            op.pop('none', None)
         return op
 
     def g_applymatch(self, world):
